@@ -27,6 +27,7 @@ func runC18(p *eng.Prog, r *eng.Report, tier string) {
 	c19EnumLoops(c, "C18.9", func(f *eng.Fn) bool { return strings.HasPrefix(f.Short, "muc.") })
 	staleNotification(c, "C18.10")
 	c18InvitationByName(c, "C18.17")
+	c18ErrorHandOffsAreErrors(c, "C18.18")
 	// C18.13 the table is keyed by address strings: the addresses built from a
 	// nickname are canonical (enforced bytes), so that the key under which a
 	// channel is registered is the key the room's presence is looked up with
@@ -407,28 +408,7 @@ func runC18(p *eng.Prog, r *eng.Report, tier string) {
 	// Channel.Join) registers the channel under the requested occupant address
 	// before the request can be answered: HandlePresence forgets the room when
 	// it is left, and an unregistered channel never sees its self-presence
-	if jp := c.fn("C18.8", "muc", "(*Channel).JoinPresence"); jp != nil {
-		g := jp.Graph()
-		isReg := func(q eng.Point, nd ast.Node) bool {
-			for _, mu := range jp.MapUpdates() {
-				if mu.Node == nd && !mu.Delete {
-					if k, _ := jp.FieldClass(mu.Map); k == "muc.Client.managed" {
-						return true
-					}
-				}
-			}
-			return false
-		}
-		n := 0
-		for _, op := range chanOps(jp) {
-			if op.kind == "send" && op.class == "muc.Channel.join" {
-				n++
-				pt, _ := g.Where(op.node)
-				c.r.Check("C18.8", jp, "channel registered before the join is queued", "O: every path of Channel.JoinPresence to the hand-off passes a store into Client.managed", op.node.Pos(), g.MustPassBefore(g.Entry(), pt, isReg, nil), "a join through Channel.Join (re-join after leaving or being removed) is never registered: the room's self-presence is ignored and Join can only end with its context's error")
-			}
-		}
-		c.r.Floor("C18.8", "join hand-offs in Channel.JoinPresence", n, 1)
-	}
+	c18RegisteredBeforeQueued(c, "C18.8")
 	// the join presence is addressed to the occupant address the channel is
 	// registered under (Client.managed is keyed by it): the address is not
 	// changed before it is copied into the presence
@@ -534,4 +514,81 @@ func c18InvitationByName(c *cx, id string) {
 		c.r.Check(id, f, "direct invitation decoded from its own payload", "G: the Invitation handed to the direct-invitation callback is decoded from the child named {jabber:x:conference}x, wherever it is in the message", cl.Pos(), okd, why+": a mediated invitation that carries both payloads is delivered a second time")
 	}
 	c.r.Floor(id, "decodes of an Invitation in the direct-invitation handler", n, 1)
+}
+
+// c18RegisteredBeforeQueued (C18.8 / C06.24): every path of Channel.JoinPresence
+// to the hand-off passes a store into Client.managed.
+func c18RegisteredBeforeQueued(c *cx, rid string) {
+	if jp := c.fn(rid, "muc", "(*Channel).JoinPresence"); jp != nil {
+		g := jp.Graph()
+		isReg := func(q eng.Point, nd ast.Node) bool {
+			for _, mu := range jp.MapUpdates() {
+				if mu.Node == nd && !mu.Delete {
+					if k, _ := jp.FieldClass(mu.Map); k == "muc.Client.managed" {
+						return true
+					}
+				}
+			}
+			return false
+		}
+		n := 0
+		for _, op := range chanOps(jp) {
+			if op.kind == "send" && op.class == "muc.Channel.join" {
+				n++
+				pt, _ := g.Where(op.node)
+				c.r.Check(rid, jp, "channel registered before the join is queued", "O: every path of Channel.JoinPresence to the hand-off passes a store into Client.managed", op.node.Pos(), g.MustPassBefore(g.Entry(), pt, isReg, nil), "a join through Channel.Join (re-join after leaving or being removed) is never registered: the room's self-presence is ignored and Join can only end with its context's error")
+			}
+		}
+		c.r.Floor(rid, "join hand-offs in Channel.JoinPresence", n, 1)
+	}
+}
+
+// c18ErrorHandOffsAreErrors (C18.18): Join / Leave return what arrives on their
+// error channel; a nil that arrives there reads as success ("the room's
+// self-presence came") although it only means that the goroutine which waits
+// for an error reply could not make sense of it. Every value sent on a
+// chan error in the muc package is provably non-nil where it is sent: a
+// variable under the fact "!= nil", or a non-pointer concrete value converted
+// to error.
+func c18ErrorHandOffsAreErrors(c *cx, id string) {
+	n := 0
+	var scan func(f *eng.Fn)
+	scan = func(f *eng.Fn) {
+		g := f.Graph()
+		f.WalkBody(func(nd ast.Node) bool {
+			ss, ok := nd.(*ast.SendStmt)
+			if !ok {
+				return true
+			}
+			ct, isChan := f.Info().TypeOf(ss.Chan).Underlying().(*types.Chan)
+			if !isChan || eng.TypeStr(ct.Elem()) != "error" {
+				return true
+			}
+			n++
+			pt, _ := g.Where(ss)
+			okv := false
+			vt := f.Info().TypeOf(ss.Value)
+			if vt != nil {
+				if _, isIface := vt.Underlying().(*types.Interface); !isIface {
+					if _, isPtr := vt.Underlying().(*types.Pointer); !isPtr {
+						okv = true // a concrete non-pointer value converted to error
+					}
+				}
+			}
+			if !okv && g.NilnessOf(ss.Value, pt) == 1 {
+				okv = true
+			}
+			c.r.Check(id, f, "value handed over on an error channel", "G: what is sent on a chan error is non-nil where it is sent (the receiver returns it: nil means success)", ss.Pos(), okv, "the value "+types.ExprString(ss.Value)+" may be nil here: Join / Leave report success although no self-presence / departure arrived")
+			return true
+		})
+		for _, l := range f.Lits {
+			scan(l)
+		}
+	}
+	for _, f := range c.allFns() {
+		if strings.HasPrefix(f.Short, "muc.") && f.Parent == nil {
+			scan(f)
+		}
+	}
+	c.r.Floor(id, "sends on error channels in package muc", n, 4)
 }
